@@ -278,6 +278,12 @@ def n9_step_by(text, fired):
     return n9_step_by(text[:mm.start()] + new + text[close_i + 1:], fired)
 
 
+def n17_ref_into_iter(text, fired):
+    """N17: `for P in &PATH {` -> `for P in PATH.iter() {`  (std: <&C as IntoIterator>::into_iter is C::iter;
+    vstd has no specification for the former on VecDeque)."""
+    return code_sub(text, r'(for\s+[^\n]+?\s+in\s+)&(?!mut\b)([A-Za-z_][A-Za-z0-9_.]*)(\s*\{)', r'\1\2.iter()\3', fired, 'N17')
+
+
 def n13_hoist_iter_temp(text, fired):
     """for P in CALL(..).iter() { -> let vx_tmpN = CALL(..); for P in vx_tmpN.iter() {
     only when the iterated expression is a method call chain ending in `()`.iter()"""
@@ -661,6 +667,7 @@ class Gen:
         body2 = normalise_code(body, fired)
         body2 = n6_closure_patterns(body2, fired)
         body2 = n9_step_by(body2, fired)
+        body2 = n17_ref_into_iter(body2, fired)
         body2 = n13_hoist_iter_temp(body2, fired)
         for kind, args, slines, tl in sections:
             if kind == 'closure':
